@@ -83,8 +83,8 @@ theorem id_step (v : Variant) {sys : Sys} {t a rest} (hI : IdInv sys) (hget : sy
         (refine ⟨by omega, by omega, by omega, fun hlt => ?_⟩; have := h4 (by omega); omega)
   | respConsume id c r =>
     cases c with
-    | plain tag =>
-      rw [after_eq (show step v sys.st (.respConsume id (.plain tag) r) = _ from rfl)]
+    | plain tag fl =>
+      rw [after_eq (show step v sys.st (.respConsume id (.plain tag fl) r) = _ from rfl)]
       have hR := cnt_step (fReg n) [] hget
       have hC := cnt_step (fCons n) [] hget
       simp only [fReg, fCons, wsum_cons, wsum_nil, count_hkeys_snoc] at hR hC ⊢
